@@ -469,9 +469,11 @@ def groupIds (g : Group) (fromP : Nat) (known : List Nat) (nt : PlayerTrigs) : E
         | none => .ok acc
         | some l => .ok (acc ++ l.map (·.2))) []
 
-/-- `copy_trigger_tree_per_player` (structure); returns per player the identities of its triggers -/
-def copyTreePerPlayer (fixed : Bool) (tm : TM) (s : Sel) (fromP : Nat) (players : Option (List Nat)) (gaia : Bool)
-    (g : Group) : Except Err (TM × List (Nat × List Nat)) :=
+/-- `copy_trigger_tree_per_player` up to (excluding) the group-by step: the copies are made and retargeted. Returns
+the state, the result dict (per player the identities of its triggers), the node list, the per-player triggers and the
+display index of the selected trigger. -/
+def copyTreePPCore (fixed : Bool) (tm : TM) (s : Sel) (fromP : Nat) (players : Option (List Nat)) (gaia : Bool) :
+    Except Err (TM × List (Nat × List Nat) × List Nat × PlayerTrigs × Nat) :=
   match resolve! tm s with
   | .error e => .error e
   | .ok (tm, f) =>
@@ -489,18 +491,24 @@ def copyTreePerPlayer (fixed : Bool) (tm : TM) (s : Sel) (fromP : Nat) (players 
         | .ok (tm, nt, swap) =>
           match remapPlayers swap nt tm.trigs with
           | .error e => .error e
-          | .ok ts =>
-            let tm := { tm with trigs := ts }
-            let ret := nt.map (fun pl => (pl.1, pl.2.map (·.1)))
-            match g with
-            | .none => .ok (tm, ret)
-            | g =>
-              match groupIds g fromP known nt with
-              | .error e => .error e
-              | .ok ids =>
-                match move tm ids f.disp with
-                | .error e => .error e
-                | .ok tm => .ok (tm, ret)
+          | .ok ts => .ok ({ tm with trigs := ts }, nt.map (fun pl => (pl.1, pl.2.map (·.1))), known, nt, f.disp)
+
+/-- `copy_trigger_tree_per_player` (structure); returns per player the identities of its triggers -/
+def copyTreePerPlayer (fixed : Bool) (tm : TM) (s : Sel) (fromP : Nat) (players : Option (List Nat)) (gaia : Bool)
+    (g : Group) : Except Err (TM × List (Nat × List Nat)) :=
+  match copyTreePPCore fixed tm s fromP players gaia with
+  | .error e => .error e
+  | .ok (tm, ret, known, nt, disp) =>
+    match g with
+    | .none => .ok (tm, ret)
+    | g =>
+      -- `if group_triggers_by != GroupBy.NONE: self.move_triggers(new_trigger_ids, display_index)`
+      match groupIds g fromP known nt with
+      | .error e => .error e
+      | .ok ids =>
+        match move tm ids disp with
+        | .error e => .error e
+        | .ok tm => .ok (tm, ret)
 
 /-! ## import_triggers -/
 
